@@ -30,3 +30,15 @@ package main
 //@   callsite[C18,C22] MakeSignatureContent article.P.FileName == p.FileName
 //@   # C22: the tag of a hint says whether the method is a class method and which visibility was in effect
 //@   callsite[C22] append tagOK(a_1[0], ctx.IsDefineStatic, ctx.IsPrivate, ctx.IsProtected)
+
+//@ # ---- C18: preloaded files act like a prefix ----
+//@ # The analysis state the last preloaded file leaves behind is exactly the state the target
+//@ # starts from, and between two preloaded files only a fresh parser is set up: nothing that may
+//@ # write a package-level variable of the analysis packages or any map runs in between.
+//@ func ti.main$1
+//@   nobody
+//@   between[C18] preload evaluationLoop state ti,ti/base,ti/eval,ti/eval/method_evaluator,ti/context,ti/builtin,ti/cmd
+//@ # (map[string]any is the lexer's own reserved-word table, refilled by lexer.New)
+//@ func ti.preload
+//@   nobody
+//@   between[C18] evaluationLoop evaluationLoop allow getParser,ApplyParserFlags state ti,ti/base,ti/eval,ti/eval/method_evaluator,ti/context,ti/builtin,ti/cmd except MD:map[string]any,MV:map[string]any
